@@ -38,15 +38,31 @@ def make_instance(n: int, rounds: int, cfg: dict | None = None, matrix=None, nam
     c = {"hmin": 1, "hmax": min(3, ll), "amin": 1, "amax": min(3, ll), "smin": 1,
          "smax": ll}
     c.update(cfg or {})
-    return I(name, np.array(matrix, dtype=np.int64), [f"t{i}" for i in range(n)], rounds,
+    inst = I(name, np.array(matrix, dtype=np.int64), [f"t{i}" for i in range(n)], rounds,
              c["hmin"], c["hmax"], c["amin"], c["amax"], c["smin"], c["smax"])
+    _INTENDED[id(inst)] = (inst, {"n": n, "rounds": rounds, **{k: c[k] for k in ("hmin", "hmax", "amin", "amax", "smin", "smax")}})
+    return inst
 
 
-def cfg_of(inst) -> dict:
+_INTENDED: dict = {}
+
+
+def stored_cfg(inst) -> dict:
     return {"n": small(inst.n_cities), "rounds": small(inst.rounds),
             "hmin": small(inst.home_streak_min), "hmax": small(inst.home_streak_max),
             "amin": small(inst.away_streak_min), "amax": small(inst.away_streak_max),
             "smin": small(inst.separation_min), "smax": small(inst.separation_max)}
+
+
+def cfg_of(inst) -> dict:
+    """The constraint settings of an instance: for instances built by make_instance the values handed to the
+    constructor (the specification judges by these), with what the instance stores as field `stored` (the
+    specification demands that they agree); for loaded instances what the instance stores."""
+    st = stored_cfg(inst)
+    hit = _INTENDED.get(id(inst))
+    if hit is not None and hit[0] is inst:
+        return {**{k: small(v) for k, v in hit[1].items()}, "stored": st}
+    return {**st, "stored": st}
 
 
 def plan_obj(inst, rows):
